@@ -271,7 +271,7 @@ def do_rewind(ctx: Any, holder: dict[str, Any], pid: int, tok: bytes, how: str) 
 
     guarded(ev, body)
     ctx.count("impl_runs")
-    return ev, rc
+    return list(ev), rc  # a copy: the next rewind clears the session's recorder
 
 
 def do_seek_fresh(ctx: Any, app: Any, method: str, pid: int, tok: bytes, how: str) -> tuple[list[list[Any]] | None, Any, bool]:
@@ -299,7 +299,7 @@ def do_seek_fresh(ctx: Any, app: Any, method: str, pid: int, tok: bytes, how: st
             read_session(ctx, sess, pid, how, ev, {"pid": pid, "method": method, "via": "seek-fresh:" + how})
 
         guarded(ev, body)
-    return ev, rc, was_finished
+    return list(ev), rc, was_finished
 
 
 def do_nwt(ctx: Any, app: Any, method: str, pid: int, holder: dict[str, Any] | None = None) -> tuple[list[list[Any]], list[bytes | None], Any]:
